@@ -50,6 +50,21 @@ func main() {
 		cmdList()
 	case "selftest":
 		os.Exit(cmdSelftest(os.Args[2:]))
+	case "snapshot-names":
+		// records parameter and local names of every function under contract (rename tolerance)
+		for _, d := range pkgDirs {
+			e, err := LoadPackage(filepath.Join(repoRoot, d), specFilesFor(d))
+			if err != nil {
+				fmt.Fprintln(os.Stderr, "load:", err)
+				os.Exit(2)
+			}
+			for _, n := range sortedKeys(e.spec.Funcs) {
+				if fn := e.funcs[n]; fn != nil && !e.spec.Funcs[n].Trusted {
+					recordNames(d, n, fn)
+				}
+			}
+		}
+		saveNamesSnapshot()
 	default:
 		fmt.Fprintln(os.Stderr, "unknown command", os.Args[1])
 		os.Exit(2)
